@@ -38,6 +38,8 @@ impl EventStore {
             .truncate(false)
             .create(true)
             .open(event_map_file)?;
+        #[cfg(feature = "verif")]
+        crate::verif::point("es:opened");
 
         // Get it's size
         let metadata = event_map_file.metadata()?;
@@ -52,10 +54,14 @@ impl EventStore {
             // grow to initial size
             len = EVENT_MAP_CHUNK;
             event_map_file.set_len(EVENT_MAP_CHUNK as u64)?;
+            #[cfg(feature = "verif")]
+            crate::verif::point("es:sized");
         }
 
         // Memory map it
         let event_map = unsafe { MmapAppend::new(&event_map_file, new)? };
+        #[cfg(feature = "verif")]
+        crate::verif::point("es:mapped");
 
         Ok(EventStore {
             event_map_file,
@@ -92,14 +98,28 @@ impl EventStore {
             end += padding;
             assert_eq!(end % 8, 0);
             let _ = self.event_map.append(padding, |_| Ok(padding))?;
+            #[cfg(feature = "verif")]
+            crate::verif::point("append:padded");
         }
 
         let event_size = event.len();
 
         loop {
             let result = self.event_map.append(event_size, |dst| {
+                #[cfg(feature = "verif")]
+                {
+                    // a half-copied event, beyond the end marker
+                    let half = event_size / 2;
+                    dst[..half].copy_from_slice(&event.as_bytes()[..half]);
+                    crate::verif::point("append:half-copied");
+                }
                 event.copy(dst).map_err(std::io::Error::other)
             });
+
+            #[cfg(feature = "verif")]
+            if result.is_ok() {
+                crate::verif::point("append:returned");
+            }
 
             match result {
                 Ok(offset) => return Ok(offset),
@@ -114,9 +134,13 @@ impl EventStore {
 
                             // Grow the file
                             self.event_map_file.set_len(new_file_len as u64)?;
+                            #[cfg(feature = "verif")]
+                            crate::verif::point("append:set-len");
 
                             // Resize the memory map
                             self.event_map.resize(new_file_len)?;
+                            #[cfg(feature = "verif")]
+                            crate::verif::point("append:resized");
 
                             // Save this new length
                             self.event_map_file_len
